@@ -16,13 +16,13 @@ Definition nohang (os : list obs) : bool := forallb (fun o => match o with Hang 
 Definition op_ok (x : m8) : Prop := forall c, opened x = Some c -> nextc x = S c.
 
 Lemma walk_obs8_false T k os : forall x o' n',
-  op_ok x -> nohang os = true ->
+  op_ok x -> nohang os = true -> (has_ended os = true -> k_dead k = true) ->
   serial (is_some (opened x)) (nextc x) os = Some (o', n') ->
   exists x', walk_obs m8 (on_ob8 T false) k os x = Some x' /\ op_ok x' /\ is_some (opened x') = o' /\ nextc x' = n'.
 Proof.
-  induction os as [|o r IH]; intros x o' n' Hop Hh Hs; cbn in *.
+  induction os as [|o r IH]; intros x o' n' Hop Hh Hk Hs; cbn in *.
   - inversion Hs; subst. exists x. auto.
-  - apply andb_prop in Hh as [Hh1 Hh2]. destruct o; cbn [serial on_ob8] in *; try discriminate.
+  - apply andb_prop in Hh as [Hh1 Hh2]. destruct o; cbn [serial on_ob8 is_ended orb] in *; try discriminate.
     + destruct (opened x) eqn:Eo; cbn [is_some] in Hs; [discriminate|]. destruct set; [discriminate|].
       destruct (Nat.eqb callno (nextc x)) eqn:Ec; [|discriminate]. cbn [andb negb orb].
       apply IH; auto. intros c E. cbn in E. inversion E; subst. cbn. apply Nat.eqb_eq in Ec. lia.
@@ -31,7 +31,38 @@ Proof.
       destruct (Nat.eqb callno c') eqn:Ec; [|discriminate]. rewrite <- En in Hs.
       destruct ok; apply IH; auto; intros c E; discriminate.
     + apply IH; auto.
-    + apply IH; auto.
+    + rewrite (Hk eq_refl). apply IH; auto.
+Qed.
+
+(* DaemonEnded is observed only in steps after which the input tracker is dead *)
+Fixpoint ended_ok (k : trk) (evs : list event) (obss : list (list obs)) : Prop :=
+  match evs, obss with
+  | e :: er, os :: osr => (has_ended os = true -> k_dead (trk_ev k e) = true) /\ ended_ok (trk_ev k e) er osr
+  | _, _ => True
+  end.
+
+Lemma dead_step k s e : Struct s -> k_dead k = is_dead s -> k_dead (trk_ev k e) = is_dead (fst (step s e)).
+Proof.
+  intros HS Hk. destruct (is_dead s) eqn:Hd.
+  - unfold step, trk_ev. rewrite Hd, Hk. cbn. rewrite Hd. exact Hk.
+  - assert (Hsh : e = Shutdown \/ e <> Shutdown) by (destruct e; auto; right; discriminate).
+    destruct Hsh as [->|Hne].
+    + unfold step, trk_ev. rewrite Hd, Hk. reflexivity.
+    + rewrite (step_alive s e HS Hd Hne). unfold trk_ev. rewrite Hk.
+      destruct e; try contradiction; repeat match goal with |- context [if ?c then _ else _] => destruct c end; cbn; auto.
+Qed.
+
+Lemma run_ended_ok evs : forall s k, Struct s -> k_dead k = is_dead s -> ended_ok k evs (snd (run s evs)).
+Proof.
+  induction evs as [|e r IH]; intros s k HS Hk; cbn [run]; [exact I|].
+  pose proof (dead_step k s e HS Hk) as Hk1. pose proof (step_struct s e HS) as HS1.
+  assert (He : has_ended (snd (step s e)) = true -> k_dead (trk_ev k e) = true).
+  { intros H. assert (Hsh : e = Shutdown \/ e <> Shutdown) by (destruct e; auto; right; discriminate).
+    destruct Hsh as [->|Hne].
+    - unfold trk_ev. destruct (k_dead k) eqn:E; [exact E|reflexivity].
+    - rewrite (allp_no_end _ (step_allp s e Hne)) in H. discriminate. }
+  specialize (IH (fst (step s e)) (trk_ev k e) HS1 Hk1).
+  destruct (step s e) as [s1 o]. cbn [fst snd] in *. destruct (run s1 r) as [s2 os]. cbn [fst snd] in *. cbn [ended_ok]. split; [exact He|exact IH].
 Qed.
 
 Lemma on_ev8_op T k k' e x : op_ok x -> op_ok (on_ev8 T k k' e x) /\ opened (on_ev8 T k k' e x) = opened x /\ nextc (on_ev8 T k k' e x) = nextc x.
@@ -42,15 +73,15 @@ Proof.
 Qed.
 
 Lemma walk8_false T evs : forall obss k x,
-  length evs = length obss -> forallb nohang obss = true -> op_ok x ->
+  length evs = length obss -> forallb nohang obss = true -> op_ok x -> ended_ok k evs obss ->
   serial (is_some (opened x)) (nextc x) (concat obss) <> None ->
   walk m8 (on_ev8 T) (on_ob8 T false) evs obss k x <> None.
 Proof.
-  induction evs as [|e er IH]; intros [|os osr] k x Hl Hh Hop Hs; cbn in Hl; try discriminate.
-  cbn [forallb] in Hh. apply andb_prop in Hh as [Hh1 Hh2]. cbn [concat] in Hs.
+  induction evs as [|e er IH]; intros [|os osr] k x Hl Hh Hop He Hs; cbn in Hl; try discriminate.
+  cbn [forallb] in Hh. apply andb_prop in Hh as [Hh1 Hh2]. cbn [concat] in Hs. destruct He as [He1 He2].
   rewrite serial_app in Hs. destruct (serial (is_some (opened x)) (nextc x) os) as [[o1 n1]|] eqn:E1; [|congruence].
   destruct (on_ev8_op T k (trk_ev k e) e x Hop) as (Hop' & Eo & En).
-  destruct (walk_obs8_false T (trk_ev k e) os (on_ev8 T k (trk_ev k e) e x) o1 n1 Hop' Hh1) as (x' & W & Hop2 & A & B).
+  destruct (walk_obs8_false T (trk_ev k e) os (on_ev8 T k (trk_ev k e) e x) o1 n1 Hop' Hh1 He1) as (x' & W & Hop2 & A & B).
   { rewrite Eo, En. exact E1. }
   cbn [walk]. rewrite W. apply IH; auto. rewrite A, B. exact Hs.
 Qed.
@@ -87,5 +118,6 @@ Proof.
   - unfold trace. rewrite run_length. reflexivity.
   - unfold trace. apply run_nohang.
   - intros c E. discriminate.
+  - unfold trace. apply run_ended_ok; [apply init_struct|reflexivity].
   - cbn. apply serial_nonempty_lemma.
 Qed.
